@@ -1668,10 +1668,21 @@ def _type_prog(fn: ast.FunctionDef, value_of: dict[str, str], what: str, flag_kw
                 st = ast.copy_location(ast.Assign(targets=[st.target], value=st.value), st)
             if isinstance(st, ast.If):
                 t = st.test
+                # `x[:1] == '*'` is `x.startswith('*')`
+                if (isinstance(t, ast.Compare) and len(t.ops) == 1 and isinstance(t.ops[0], ast.Eq) and isinstance(t.left, ast.Subscript)
+                        and isinstance(t.left.slice, ast.Slice) and t.left.slice.lower is None and t.left.slice.step is None
+                        and _is(t.left.slice.upper, '1') and _is(t.comparators[0], "'*'") and sx(t.left.value, env) is not None):
+                    t = ast.Call(func=ast.Attribute(value=t.left.value, attr='startswith', ctx=ast.Load()), args=[t.comparators[0]], keywords=[])
                 if (isinstance(t, ast.Call) and isinstance(t.func, ast.Attribute) and t.func.attr == 'startswith' and len(t.args) == 1
                         and not t.keywords and sx(t.func.value, env) is not None):
-                    if _const(t.args[0], str, f'{what}: startswith argument') != '*' or st.orelse or fvar is None:
+                    if _const(t.args[0], str, f'{what}: startswith argument') != '*' or fvar is None:
                         raise TranslateError(f'{what}: prefix test at line {st.lineno} not recognised')
+                    env3 = dict(env)
+                    for x in st.orelse:      # the other branch may only name expressions over the type text
+                        v = sx(x.value, env3) if isinstance(x, ast.Assign) and len(x.targets) == 1 and isinstance(x.targets[0], ast.Name) else None
+                        if v is None or x.targets[0].id == fvar:   # type: ignore[attr-defined]
+                            raise TranslateError(f'{what}: statement in the else branch of the `*` test not recognised: {ast.unparse(x)[:60]}')
+                        env3[x.targets[0].id] = v   # type: ignore[attr-defined]
                     env2 = dict(env)
                     flagged = False
                     for x in st.body:
@@ -1686,7 +1697,7 @@ def _type_prog(fn: ast.FunctionDef, value_of: dict[str, str], what: str, flag_kw
                         raise TranslateError(f'{what}: statement under the `*` test not recognised: {ast.unparse(x)[:60]}')
                     if not flagged:
                         raise TranslateError(f'{what}: the `*` branch does not set the reportable flag')
-                    return f'(PIfStar {sx(t.func.value, env)} {run(rest, env2)} {run(rest, env)})'
+                    return f'(PIfStar {sx(t.func.value, env)} {run(rest, env2)} {run(rest, env3)})'
                 if isinstance(t, ast.Compare) and len(t.ops) == 1 and isinstance(t.ops[0], ast.Eq):
                     a, b = t.left, t.comparators[0]
                     if sx(b, env) is not None:
@@ -1792,12 +1803,13 @@ def _build_blocks(tree: ast.Module) -> dict:
             touches = any(isinstance(n, ast.Name) and n.id == lst for n in ast.walk(st))
             if not touches:
                 continue
-            if _is(st, f'if not {ovf}.ents:\n    {lst}.remove({ovf})'):
+            if _is(st, f'if not {ovf}.ents:\n    {lst}.remove({ovf})') or _is(st, f'if len({ovf}.ents) == 0:\n    {lst}.remove({ovf})'):
                 found = True
             elif (isinstance(st, ast.Assign) and len(st.targets) == 1 and isinstance(st.targets[0], ast.Name) and st.targets[0].id == lst and isinstance(st.value, ast.ListComp)
                   and len(st.value.generators) == 1 and _is(st.value.generators[0].iter, lst) and isinstance(st.value.generators[0].target, ast.Name)
                   and _is(st.value.elt, st.value.generators[0].target.id) and len(st.value.generators[0].ifs) == 1
-                  and _is(st.value.generators[0].ifs[0], f'{st.value.generators[0].target.id}.ents')):
+                  and any(_is(st.value.generators[0].ifs[0], form.format(b=st.value.generators[0].target.id))
+                          for form in ('{b}.ents', 'len({b}.ents) > 0', 'len({b}.ents)', '{b}.ents != []', 'len({b}.ents) != 0', 'len({b}.ents) >= 1'))):
                 found = True
             elif isinstance(st, ast.Expr) and isinstance(st.value, ast.Call) and _is(st.value.func, f'{lst}.sort'):
                 continue
@@ -1850,6 +1862,97 @@ def _build_blocks(tree: ast.Module) -> dict:
 
 
 
+# ------------------------------------------------------------------------------------------ entity keyword / top-level dispatch
+def _kind_keyword(tree: ast.Module) -> dict:
+    """FGD.parse_file: how a top-level STRING token is normalised, the directive keywords in program order, the final look-up
+    `EntityTypes(token[1:])` for every other '@' token; EntityDef.export: the chain of str methods applied to `self.type.value`
+    after the '@' (Fmt/FgdKindKw.v)."""
+    exp = _method(tree, 'EntityDef', 'export')
+    ops: list[str] | None = None
+    for st in _body(exp):
+        if isinstance(st, ast.Expr) and isinstance(st.value, ast.Call) and _is(st.value.func, 'file.write') and len(st.value.args) == 1:
+            a = st.value.args[0]
+            if not (isinstance(a, ast.JoinedStr) and len(a.values) == 3 and isinstance(a.values[0], ast.Constant) and a.values[0].value == '@'
+                    and isinstance(a.values[1], ast.FormattedValue) and a.values[1].conversion == -1 and a.values[1].format_spec is None
+                    and isinstance(a.values[2], ast.Constant) and a.values[2].value == ' '):
+                raise TranslateError('EntityDef.export: the first write is not `@<kind keyword> `')
+            ops = []
+            e = a.values[1].value
+            while not _is(e, 'self.type.value'):
+                if not (isinstance(e, ast.Call) and isinstance(e.func, ast.Attribute) and not e.keywords):
+                    raise TranslateError(f'EntityDef.export: kind keyword expression not recognised: {ast.unparse(a.values[1].value)}')
+                m = e.func.attr
+                if m == 'title' and not e.args:
+                    ops.append('WTitle')
+                elif m in ('lower', 'casefold') and not e.args:
+                    ops.append('WLower')
+                elif m == 'upper' and not e.args:
+                    ops.append('WUpper')
+                elif m == 'replace' and len(e.args) == 2:
+                    ops.append(f'(WReplace {_cstr(_const(e.args[0], str, "replace"))} {_cstr(_const(e.args[1], str, "replace"))})')
+                else:
+                    raise TranslateError(f'EntityDef.export: str method .{m}() on the kind keyword not supported')
+                e = e.func.value
+            ops.reverse()
+            break
+    if ops is None:
+        raise TranslateError('EntityDef.export: no write of the kind keyword found')
+    pf = _method(tree, 'FGD', 'parse_file')
+    loops = [n for n in ast.walk(pf) if isinstance(n, ast.For) and isinstance(n.target, ast.Tuple) and len(n.target.elts) == 2
+             and all(isinstance(x, ast.Name) for x in n.target.elts) and isinstance(n.iter, ast.Name)]
+    top = [n for n in loops if any(isinstance(x, ast.Call) and _is(x.func, 'EntityDef.parse') for x in ast.walk(n))]
+    if len(top) < 1:
+        raise TranslateError('FGD.parse_file: top-level token loop not found')
+    loop = top[0]
+    tokv = loop.target.elts[1].id   # type: ignore[attr-defined]
+    folded = False
+    chain: ast.If | None = None
+    for st in loop.body:
+        if isinstance(st, ast.Assign) and len(st.targets) == 1 and isinstance(st.targets[0], ast.Name) and st.targets[0].id == tokv:
+            if _is(st.value, f'{tokv}.casefold()') or _is(st.value, f'{tokv}.lower()'):
+                folded = True
+                continue
+            raise TranslateError(f'FGD.parse_file: the token text is re-bound: {ast.unparse(st)[:60]}')
+        if isinstance(st, ast.If) and isinstance(st.test, ast.Compare) and _is(st.test.left, tokv) and len(st.test.ops) == 1 and isinstance(
+                st.test.ops[0], ast.Eq) and isinstance(st.test.comparators[0], ast.Constant) and isinstance(st.test.comparators[0].value, str):
+            chain = st
+            break
+        if _stores(st) & {tokv}:
+            raise TranslateError(f'FGD.parse_file: the token text is re-bound: {ast.unparse(st)[:60]}')
+    if chain is None:
+        raise TranslateError('FGD.parse_file: keyword dispatch chain not found')
+    directives: list[str] = []
+    node: ast.stmt = chain
+    final_ok = False
+    while True:
+        assert isinstance(node, ast.If)
+        t = node.test
+        if (isinstance(t, ast.Compare) and _is(t.left, tokv) and len(t.ops) == 1 and isinstance(t.ops[0], ast.Eq)
+                and isinstance(t.comparators[0], ast.Constant) and isinstance(t.comparators[0].value, str)):
+            directives.append(t.comparators[0].value)
+        elif _is(t, f"{tokv}[:1] == '@'") or _is(t, f"{tokv}.startswith('@')"):
+            look = [x for x in ast.walk(node) if isinstance(x, ast.Call) and _is(x.func, 'EntityTypes')]
+            ok = len(look) == 1 and len(look[0].args) == 1 and _is(look[0].args[0], f'{tokv}[1:]')
+            ok = ok and len(node.orelse) >= 1 and all(isinstance(x, ast.Raise) for x in node.orelse)
+            if not ok:
+                raise TranslateError('FGD.parse_file: the entity keyword branch is not `EntityTypes(token[1:])` with an error branch after it')
+            final_ok = True
+            break
+        else:
+            raise TranslateError(f'FGD.parse_file: dispatch test not recognised: {ast.unparse(t)[:60]}')
+        if len(node.orelse) == 1 and isinstance(node.orelse[0], ast.If):
+            node = node.orelse[0]
+        else:
+            break
+    if not final_ok:
+        raise TranslateError('FGD.parse_file: no entity keyword branch at the end of the dispatch chain')
+    et_members, _ = enum_members(_cls(tree, 'EntityTypes'))
+    if not all(isinstance(v, str) for _, v in et_members):
+        raise TranslateError('EntityTypes: a member value is not a string')
+    return {'folded': folded, 'directives': directives, 'writer_ops': ops, 'kinds': [v for _, v in et_members]}
+
+
+
 # ------------------------------------------------------------------------------------------ emit
 def _nlist(xs) -> str:
     return '[' + '; '.join(str(int(x)) for x in xs) + ']%N'
@@ -1879,13 +1982,14 @@ def translate() -> tuple[str, dict]:
     db = _engine_db()
     md = _multi_db(fgd_tree)
     tt = _type_text(fgd_tree)
+    kk = _kind_keyword(fgd_tree)
     for op in (wl['loop_op'], wl['nl_op']):
         if op not in OPS:
             raise TranslateError(f'comparison operator {op} not supported')
     ef = dict(db['ef_members'])
     lines = [
         '(* GENERATED by translate/c16_fgd.py from srctools/fgd.py, _engine_db.py, tokenizer.py, const.py. Do not edit. *)',
-        'From Coq Require Import List NArith String.', 'From SV Require Import Fmt.LongString Fmt.FgdLine Fmt.FgdTypeText SM.LazyDbMulti SM.FgdBlocks.',
+        'From Coq Require Import List NArith String.', 'From SV Require Import Fmt.LongString Fmt.FgdLine Fmt.FgdTypeText SM.LazyDbMulti SM.FgdBlocks Fmt.FgdKindKw.',
         'Import ListNotations.', 'Open Scope string_scope.',
         'Inductive cmp_op := OpGt | OpGe | OpLt | OpLe | OpEq | OpNe.',
         '(* tokenizer.ESCAPES as (symbol, character); characters escape_text() never escapes *)',
@@ -1936,6 +2040,11 @@ def translate() -> tuple[str, dict]:
         '(* the database list; EntityDef.engine_def returns the first database (in that order) that knows the class *)',
         f'Definition engine_dbase_merge : merge_mode := {"FirstWins" if md["effective_first"] else "LastWins"}.',
         f'Definition engine_def_returns_first_hit : bool := {_b(md["first_hit"])}.',
+        '(* FGD.parse_file top-level dispatch and the kind keyword EntityDef.export writes (Fmt/FgdKindKw.v) *)',
+        f'Definition pf_token_folded : bool := {_b(kk["folded"])}.',
+        'Definition pf_directives : list (list N) := [' + '; '.join(_cstr(d) for d in kk['directives']) + '].',
+        'Definition entity_kind_values : list (list N) := [' + '; '.join(_cstr(d) for d in kk['kinds']) + '].',
+        'Definition kind_writer_ops : list wop := [' + '; '.join(o[1:-1] if o.startswith('(') else o for o in kk['writer_ops']) + '].',
         '(* _engine_db.build_blocks: size tests by role, and where blocks without entities leave the list (SM/FgdBlocks.v); serialise *)',
         'Definition gen_bcfg : bcfg := {| merge_fits := %s; add_fits := %s; ovf_full := %s; drop_empty_before_leftovers := %s; '
         'drop_empty_after_leftovers := %s |}.' % (_CMP_FN[db['build_blocks']['merge_op']], _CMP_FN[db['build_blocks']['add_op']],
@@ -1949,7 +2058,7 @@ def translate() -> tuple[str, dict]:
     ]
     if wl['notfound'] < 0:
         raise TranslateError('not-found comparison value is negative')
-    side = dict(type_text=tt, multi_db=md, write_longstring=wl, fgd_escape=fe, text_writers=tw, tokenizer=tok_side, engine_db={k: v for k, v in db.items() if k != 'bits'},
+    side = dict(type_text=tt, kind_keyword=kk, multi_db=md, write_longstring=wl, fgd_escape=fe, text_writers=tw, tokenizer=tok_side, engine_db={k: v for k, v in db.items() if k != 'bits'},
                 bit_ops=db['bits'])
     return '\n'.join(lines), side
 
